@@ -455,7 +455,10 @@ struct Scenario { tag: usize, stored: Vec<u8>, prog: [u8; 32], ixdata: Vec<u8>, 
 fn scenario(rng: &mut Rng) -> Scenario {
     let world = World::new(rng);
     let datas: Vec<Vec<u8>> = (0..6).map(|_| rand_data(rng)).collect();
-    let nm = rng.below(6) as usize;
+    // mostly small instructions; now and then a very wide one, so that the largest one-byte account indices
+    // (…, 254, 255) refer to accounts that exist
+    let wide = rng.chance(1, 30);
+    let nm = if wide { rng.range(253, 259) as usize } else { rng.below(6) as usize };
     let metas: Vec<(usize, bool, bool)> = (0..nm).map(|_| (rng.below(6) as usize, rng.chance(1, 3), rng.chance(1, 2))).collect();
     let ixdata = rand_data(rng);
     let nc = match rng.below(6) { 0 => 0, 1 => 1, _ => rng.range(2, 5) as usize };
@@ -463,10 +466,17 @@ fn scenario(rng: &mut Rng) -> Scenario {
     // configs); the other half: fixed keys mixed with boundary-heavy random configs
     let all_valid = rng.chance(1, 2);
     let data_lens: Vec<usize> = metas.iter().map(|(k, _, _)| datas[*k].len()).collect();
-    let cfgs: Vec<Vec<u8>> = (0..nc).map(|j| {
+    let mut cfgs: Vec<Vec<u8>> = (0..nc).map(|j| {
         if all_valid { valid_cfg(rng, &world, nm, j, ixdata.len(), &data_lens) }
         else if rng.chance(1, 2) { let k = world.keys[rng.below(6) as usize]; cfg_bytes(0, &k, rng.below(2) as u8, rng.below(2) as u8) } else { rand_cfg(rng, &world, nm + nc, ixdata.len()) }
     }).collect();
+    if wide && !cfgs.is_empty() {
+        // a PDA whose seed is the key of one of the last addressable accounts
+        let hi = (nm + cfgs.len() - 1).min(255);
+        let idx = hi - rng.below(3.min(hi as u64 + 1)) as usize;
+        let k = rng.below(cfgs.len() as u64) as usize;
+        cfgs[k] = cfg_bytes(1, &Seed::pack_into_address_config(&[Seed::AccountKey { index: idx as u8 }]).unwrap(), rng.below(2) as u8, rng.below(2) as u8);
+    }
     let tag = rng.below(8) as usize;
     let stored = stored_for(tag, &cfgs, if rng.chance(1, 3) { rng.below(20) as usize } else { 0 });
     Scenario { tag, stored, prog: world.prog, ixdata, metas, world, datas, cfgs }
